@@ -61,7 +61,7 @@ nodes: dict[str, NodeSpec] = {
         "draggable": True,
         "parseDOM": [
             {
-                "tag": "img",
+                "tag": "img[src]",
                 "getAttrs": lambda dom_: {
                     "src": dom_.get("src"),
                     "title": dom_.get("title"),
@@ -94,7 +94,7 @@ marks: dict[str, MarkSpec] = {
     "link": {
         "attrs": {"href": {}, "title": {"default": None}},
         "inclusive": False,
-        "parseDOM": [{"tag": "a", "getAttrs": lambda d: {"href": d.get("href")}}],
+        "parseDOM": [{"tag": "a[href]", "getAttrs": lambda d: {"href": d.get("href")}}],
         "toDOM": lambda node, _: [
             "a",
             {"href": node.attrs["href"], "title": node.attrs["title"]},
